@@ -54,6 +54,18 @@ class _Slot:
             self.fh.close()
 
 
+def hang_class(stacks):
+    """a recognisable state in the stack dumps of a run that did not finish: a queue feeder thread (main's or a worker's)
+    blocked ACQUIRING the shared write lock of a multiprocessing queue - the lock is held by a process that no longer
+    exists (known finding D34)"""
+    import linecache
+    import re as _re
+    for m in _re.finditer(r'File "([^"]*queues\.py)", line (\d+) in _feed', stacks or ''):
+        if linecache.getline(m.group(1), int(m.group(2))).strip() == 'wacquire()':
+            return 'results_writelock'
+    return None
+
+
 class _BudgetFactor:
     """how much slower than on an idle machine a trivial fork pool cycle is at the moment (>= 1, capped); measured once per
     check process and again for every confirmation run of a suspected hang, which also gets three times the budget"""
@@ -157,7 +169,9 @@ def _run_one(scen, rundir, hook=True):
                         stacks += f'\n--- {n}:\n' + txt[-2500:]
                 except OSError:
                     pass
-    rec['stacks'] = stacks[-9000:]
+    cls = hang_class(stacks)
+    rec['hang_class'] = cls
+    rec['stacks'] = stacks[-9000:] + (f'\n[hang-class: {cls}]' if cls else '')
     try:
         rec['stderr'] = open(os.path.join(rundir, 'stderr')).read()[-3000:]
     except OSError:
